@@ -724,6 +724,12 @@ func (h *Harness) reflectObj(n *model.Node) interface{} {
 	h.ptrNode[o] = n
 	h.mu.Unlock()
 	td := h.S.Type(n.Type)
+	// structs embedded BY POINTER are allocated: their promoted fields are fields of the value like any other
+	for i, st := 0, pv.Elem().Type(); st.Kind() == reflect.Struct && i < st.NumField(); i++ {
+		if sf := st.Field(i); sf.Anonymous && sf.Type.Kind() == reflect.Ptr && sf.Type.Elem().Kind() == reflect.Struct && pv.Elem().Field(i).IsNil() {
+			pv.Elem().Field(i).Set(reflect.New(sf.Type.Elem()))
+		}
+	}
 	for _, f := range td.Fields {
 		v, has := n.F[f.Name]
 		if !has || v == nil {
